@@ -112,11 +112,25 @@ var (
 // IsFrameRange returns true if the given string is a valid frame
 // range format.  Any padding characters, such as '#' and '@' are ignored.
 func IsFrameRange(frange string) bool {
-	_, err := frameRangeMatches(frange)
-	if err == nil {
-		return true
+	matches, err := frameRangeMatches(frange)
+	if err != nil {
+		return false
 	}
-	return false
+	// The numbers must be valid ints, and a step cannot be 0,
+	// the same as when creating a FrameSet
+	for _, match := range matches {
+		for i, num := range match {
+			if i == 2 {
+				// range modifier
+				continue
+			}
+			val, err := parseInt(num)
+			if err != nil || (i == 3 && val == 0) {
+				return false
+			}
+		}
+	}
+	return true
 }
 
 // FramesToFrameRange takes a slice of frame numbers and
